@@ -96,7 +96,15 @@ impl<'a> Gen<'a> {
       };
     }
     match self.rng.index(21) {
-      16 => format!("(function() {})()", self.num(d - 1)),
+      16 => {
+        if self.rng.chance(1, 2) {
+          format!("(function() {})()", self.num(d - 1))
+        } else {
+          // a context literal with ONE entry, named like an entry of the caller's context
+          let k = *self.rng.pick(&["a", "b", "Order Size", "zq"]);
+          format!("{{{}: {} + 1}}.{}", k, self.num(d - 1), k)
+        }
+      }
       17 => format!("{{pi: function() {}, r: pi() + {}}}.r", self.num(d - 1), self.num(d - 1)),
       18 => format!("sum(for i in {} return (function() i + a)())", self.list(d - 1)),
       19 => format!("(function(f) f() + 1)(function() {})", self.num(d - 1)),
@@ -352,7 +360,13 @@ impl<'a> Gen<'a> {
       2 | 3 => self.list(d),
       4 => self.boolean(d),
       5 => self.string(d),
-      6 => format!("{{r: {}, t: {}, u: [r, t]}}", self.num(d.saturating_sub(1)), self.list(d.saturating_sub(1))),
+      6 => {
+        if self.rng.chance(1, 3) {
+          format!("{{a: {}}}", self.num(d.saturating_sub(1)))
+        } else {
+          format!("{{r: {}, t: {}, u: [r, t]}}", self.num(d.saturating_sub(1)), self.list(d.saturating_sub(1)))
+        }
+      }
       7 => format!("function(k) k + {}", self.num(d.saturating_sub(1))),
       8 => format!("function() {}", self.num(d.saturating_sub(1))),
       _ => format!("{{f: function() {}, g: function(u, v) u + v, h: [f, g]}}", self.list(d.saturating_sub(1))),
@@ -363,7 +377,9 @@ impl<'a> Gen<'a> {
 impl<'a> Gen<'a> {
   /// A context literal whose later entries use earlier ones (what the service parses as request body).
   fn context_text(&mut self, d: u32) -> String {
-    match self.rng.index(4) {
+    match self.rng.index(6) {
+      4 => format!("{{a: a + {}}}", self.num(d)),
+      5 => format!("{{{}: {}}}", *self.rng.pick(&["b", "s", "flag", "xs", "only one"]), self.num(d)),
       0 => format!("{{u: {}, v: u + 1, w: [u, v], Order Size: v * 2}}", self.num(d)),
       1 => format!("{{k: {}, f: function(q) q + k, r: f(k)}}", self.num(d)),
       2 => format!("{{m: {}, n: for x in m return x + a, o: {{p: n, q: count(p)}}}}", self.list(d)),
